@@ -61,6 +61,7 @@ def run_workload(kind, scratch, name, slots, stop_at, budget):
         # arrives before on_start sets the running flag is outside the statement)
         if state["stopped_at"] is None and stop_at is not None and k >= stop_at and getattr(w.runner, "running", False):
             state["stopped_at"] = k
+            state["at_stop"] = {i: w.raw_status(i) for i in w.all_invocations()}
             w.runner.stop_runner_loop()
         if stop_at is None and state["all_final_at"] is None:
             if all((w.raw_status(r) or ("?",))[0] in FINAL for r in roots):
@@ -83,7 +84,16 @@ def run_workload(kind, scratch, name, slots, stop_at, budget):
         # who is the stop waiting for?  an alive task thread that waits on a child nobody will run
         waiting = [str(x) for x in w.runner.waiting_invocation_ids]
         queued_children = [i for i in invs if (w.raw_status(i) or ("?",))[0] in AVAILABLE and i in q]
-        if waiting and queued_children:
+        at_stop = state.get("at_stop") or {}
+        killed_by_stop = {i for (i, st_, req, ok, _) in w.tlog if ok and st_ == "KILLED" and req == rid}
+        own_at_stop = [i for i in queued_children if str(i) not in waiting and i in killed_by_stop and (at_stop.get(i) or ("?", None))[0] in ("PENDING", "RUNNING") and (at_stop.get(i) or ("?", None))[1] == rid]
+        if waiting and own_at_stop:
+            # not the known gap (a child nobody has started): the stop itself took a RUNNING / PENDING child of this runner away from
+            # under a parent it then waits for
+            key = "stop-hangs:parent-waits-child-the-stop-requeued"
+            verdict = (f"run() did not return within {budget} fair scheduling steps after the stop request at step {state['stopped_at']}: the stop re-queued "
+                       f"{len(own_at_stop)} invocation(s) that were PENDING/RUNNING under this runner at the request and then joins a task thread that waits for them")
+        elif waiting and queued_children:
             key = "stop-hangs:parent-waits-queued-child"
             verdict = (f"run() did not return within {budget} fair scheduling steps after the stop request at step {state['stopped_at']}: "
                        f"{len(waiting)} task thread(s) wait for sub-tasks that are still queued ({len(queued_children)} queued), the join never returns")
